@@ -38,9 +38,10 @@ const (
 	cBlockPooledMsg  // pooled result, block type + message
 	cWait            // an own "should wait" result: neither pass nor block, the chain goes on
 	cPanic
+	cBlockBareOwn // an own result built with NewTokenResult(Blocked) and nothing else: a block all the same
 )
 
-func blocks(b int) bool { return b >= cBlockOwn && b <= cBlockPooledMsg }
+func blocks(b int) bool { return b >= cBlockOwn && b <= cBlockPooledMsg || b == cBlockBareOwn }
 
 // what the block error of behaviour b raised by slot id must look like
 func wantSnap(b int, id string) (base.BlockType, string, string, interface{}) {
@@ -51,6 +52,8 @@ func wantSnap(b int, id string) (base.BlockType, string, string, interface{}) {
 		return base.BlockTypeIsolation, "pooled:" + id, id, id
 	case cBlockPooledBare:
 		return base.BlockTypeSystemFlow, "", "", nil
+	case cBlockBareOwn:
+		return base.BlockTypeUnknown, "", "", nil
 	}
 	return base.BlockTypeHotSpotParamFlow, "msg:" + id, "", nil
 }
@@ -140,6 +143,10 @@ func (c *checkSlot) Check(ctx *base.EntryContext) *base.TokenResult {
 		return r
 	case cWait:
 		return base.NewTokenResultShouldWait(1)
+	case cBlockBareOwn:
+		return base.NewTokenResult(base.ResultStatusBlocked)
+	case cPanic:
+		panic("check " + c.id)
 	}
 	panic("check " + c.id)
 }
@@ -445,7 +452,7 @@ func run(c *props.Ctx) {
 		np, ns = 3, 3
 	}
 	preps := enumSpecs(np, 2)
-	checks := enumSpecs(3, 8)
+	checks := enumSpecs(3, 9)
 	stats := enumSpecs(ns, 4)
 	c.R.Bounds["max_prepare_slots"] = np
 	c.R.Bounds["max_rule_check_slots"] = 3
